@@ -560,3 +560,23 @@ Proof.
   - apply (group_ext u la lb); assumption.
   - intros H x. subst. tauto.
 Qed.
+
+Lemma names_in_elements_p u l G d : mkgroup u l = GOk G -> In d (gnames G) -> In d (gelements G).
+Proof.
+  intros H Hd. apply mkgroup_inv in H as [C [HC HG]]. subst G. simpl in *.
+  apply closure_inv in HC as (_ & Hc & _ & HK & _).
+  destruct (find_elem_known u d (HK d Hd)) as [e He]. pose proof (find_elem_some _ _ _ He) as [Hin Hn].
+  unfold elements_of. apply in_map_iff. exists e. split; [exact Hn|]. apply filter_In. split; [exact Hin|].
+  apply forallb_forall. intros r Hr. apply memb_In. eapply Hc; [exact Hd|exact He|].
+  unfold deps. apply in_or_app. left. exact Hr.
+Qed.
+
+Lemma elements_char_p u l G x : mkgroup u l = GOk G ->
+  (In x (gelements G) <-> exists e, In e u /\ ename e = x /\ incl (ereq e) (gnames G)).
+Proof.
+  intro H. apply mkgroup_inv in H as [C [_ HG]]. subst G. simpl. unfold elements_of. rewrite in_map_iff. split.
+  - intros [e [Hn Hf]]. apply filter_In in Hf as [Hin Hf]. exists e. split; [exact Hin|]. split; [exact Hn|].
+    rewrite forallb_forall in Hf. intros r Hr. apply memb_In. apply Hf. exact Hr.
+  - intros [e [Hin [Hn Hi]]]. exists e. split; [exact Hn|]. apply filter_In. split; [exact Hin|].
+    apply forallb_forall. intros r Hr. apply memb_In. apply Hi. exact Hr.
+Qed.
